@@ -5,6 +5,7 @@
 #include <unistd.h>
 #include <cstdio>
 #include <string>
+#include <exception>
 using namespace tbox::event;
 int main(int argc, char **argv) {
     std::string engine = argc > 1 ? argv[1] : "epoll";
@@ -25,7 +26,9 @@ int main(int argc, char **argv) {
     });
     ea->enable(); eb->enable();
     write(a[1], "x", 1); write(b[1], "y", 1);          // both ready in the same pass, A first
-    loop->exitLoop(std::chrono::milliseconds(50)); loop->runLoop();
+    loop->exitLoop(std::chrono::milliseconds(50));
+    try { loop->runLoop(); }
+    catch (const std::exception &e) { printf("VIOLATION: the loop threw %s while dispatching a pass in which a callback destroyed another ready descriptor's last event\n", e.what()); return 1; }
     printf("[%s] callbacks on destroyed B: %d, callbacks on C (never ready): %d\n", engine.c_str(), b_calls, c_calls);
     int bad = 0;
     if (c_calls != 0) { printf("VIOLATION: an event whose descriptor was never ready was called back (stale shared record of a destroyed event reused in the same pass)\n"); bad = 1; }
